@@ -14,7 +14,7 @@ from py2v import Module, HEADER, Refuse, read_errors, zlit
 OUT = 'Gen_flow.v'
 SOURCES = ['pcbasic/basic/base/error.py', 'pcbasic/basic/interpreter.py']
 
-ERRORS = ['NEXT_WITHOUT_FOR', 'SYNTAX_ERROR', 'RETURN_WITHOUT_GOSUB', 'ILLEGAL_FUNCTION_CALL', 'OVERFLOW',
+ERRORS = ['NEXT_WITHOUT_FOR', 'SYNTAX_ERROR', 'RETURN_WITHOUT_GOSUB', 'OUT_OF_DATA', 'ILLEGAL_FUNCTION_CALL', 'OVERFLOW',
           'UNDEFINED_LINE_NUMBER', 'DIVISION_BY_ZERO', 'NO_RESUME', 'RESUME_WITHOUT_ERROR', 'FOR_WITHOUT_NEXT',
           'WHILE_WITHOUT_WEND', 'WEND_WITHOUT_WHILE']
 
